@@ -9,6 +9,9 @@ from ..core import same, HarnessError, snap, snap_same
 ID = 'C20'
 TITLE = 'perdictable: once per row of the keyed join; defaults; expiry gating'
 LEVEL = 'exploration'
+TECHNIQUE = 'runtime monitoring: keyed-join reference model + call recorder inside the lifted function (exactly-once, with what arguments) + warm-up call sequences'
+LEVEL_TEXT = 'Held on the input sets explored (scalars/tables over 1-2 key columns, defaults, previous data with past/future/None/absent expiry). A check says held on K observed executions, never verified.'
+LEVEL_NOTE = 'Trusted: the join model; cases are well posed (an un-defaulted table carries the full key set).'
 RULE = ('random sets of 1-4 inputs, each a scalar or a table over one or two key columns (homogeneous str or int keys, unique per table) with overlapping / disjoint / empty key sets, '
         'any subset of inputs with defaults, previous data for a subset of keys and expiry in {absent, clearly past, clearly future, None} for keys that have previous data; join() directly with '
         'the same inputs; non-trivial = >=2 table inputs with partial key overlap, or a mix of past/future/None expiries; distinct = canonical hash')
